@@ -362,3 +362,10 @@ def disturb(g, h):
 
 def case_int(*parts):
     return int.from_bytes(digest(*parts), 'big')
+
+
+def maybe_disturb(g, *parts):
+    """One case in three is preceded by an unfinished earlier call (see ``disturb``); a pure function of the case."""
+    h = case_int(*parts)
+    if h % 3 == 0:
+        disturb(g, h // 3)
